@@ -302,14 +302,23 @@ func genChain(r *rng, o chainOpts) *ccase {
 			if p.shape == 2 && len(p.outs) > 0 && r.chance(1, 14) && !last {
 				p.hasMC = true
 				p.mc = []int{p.outs[r.intn(len(p.outs))]}
+				if len(p.outs) >= 2 && r.chance(1, 3) {
+					p.mc = append([]int{}, p.outs[:2]...) // stacked annotations
+				}
 			}
 			rets := p.outs
 			if (p.shape == 3 || last) && len(rets) > 0 && r.chance(1, 12) {
 				p.hasCO = true
 				p.co = []int{rets[r.intn(len(rets))]}
+				if len(rets) >= 2 && r.chance(1, 3) {
+					p.co = append([]int{}, rets[:2]...)
+				}
 			}
 			if p.shape == 3 && len(p.outs) > 0 && r.chance(1, 15) {
 				p.sa = []int{p.outs[r.intn(len(p.outs))]}
+				if len(p.outs) >= 2 && r.chance(1, 3) {
+					p.sa = append([]int{}, p.outs[:2]...)
+				}
 			}
 			// Loose for an interface one of the outputs implements
 			outsDown := p.outs
